@@ -10,6 +10,10 @@ open Emu.GoSem
 def greaterThanPrefixSlice (item pfx : List Nat) : Except Fault (List Nat) :=
   if item.length < pfx.length then pure item else goSlice item 0 pfx.length
 
+/-- `lessThanPrefix(item, prefix)`: `prefix[:len(item)]` only when the item is shorter than the prefix -/
+def lessThanPrefixSlice (item pfx : List Nat) : Except Fault (List Nat) :=
+  if item.length < pfx.length then goSlice pfx 0 item.length else pure pfx
+
 /-- resumable upload: `data[:lo]` is taken only after the "missing content" check `len(data) < lo` failed -/
 def resumeTruncate (data : List Nat) (lo : Int) : Except Fault (List Nat) :=
   if lo == -1 then pure data
